@@ -164,7 +164,10 @@ func newBufSys(r *eng.Run, thorough bool) *bufSys {
 		doc := docs[dn]
 		s.ops = append(s.ops,
 			bufOp{"Valid/" + dn, func(b *rjson.Buffer) string { return fmt.Sprint(rjson.Valid(doc, b)) }},
-			bufOp{"SkipValue/" + dn, func(b *rjson.Buffer) string { p, err := rjson.SkipValue(doc, b); return fmt.Sprintf("p=%d %s", p, errClass(err)) }},
+			bufOp{"SkipValue/" + dn, func(b *rjson.Buffer) string {
+				p, err := rjson.SkipValue(doc, b)
+				return fmt.Sprintf("p=%d %s", p, errClass(err))
+			}},
 			bufOp{"SkipValueFast/" + dn, func(b *rjson.Buffer) string {
 				p, err := rjson.SkipValueFast(doc, b)
 				return fmt.Sprintf("p=%d %s", p, errClass(err))
